@@ -12,6 +12,54 @@ import (
 // Set is a set of modules and submodules.
 type Set struct {
 	Modules []*Module `json:"modules"`
+	// Older: an older revision of this module of the set is loaded as well, before or after the others. It has
+	// the same namespace and prefix, defines the module's top-level typedef, grouping and identity names and its
+	// first container differently, and holds a shorthand choice, an augment of its own and an rpc. Nothing
+	// refers to it: every name and import denotes the module of the set, which carries a later revision.
+	Older      string `json:"older_revision_of,omitempty"`
+	OlderFirst bool   `json:"older_first,omitempty"`
+}
+
+// OlderText is the text of the older revision (nil if there is none).
+func (s *Set) OlderText() *Source {
+	m := s.Find(s.Older)
+	if m == nil || m.IsSub || len(m.Revisions) == 0 {
+		return nil
+	}
+	var b strings.Builder
+	fmt.Fprintf(&b, "module %s {\n  namespace %s;\n  prefix %s;\n  revision 2019-05-05;\n", m.Name, Q(m.Namespace), m.Prefix)
+	seen := map[string]bool{}
+	for _, x := range s.Modules {
+		if x != m && !(x.IsSub && x.BelongsTo == m.Name) {
+			continue
+		}
+		for _, td := range x.Typedefs {
+			if !seen["t:"+td.Name] {
+				seen["t:"+td.Name] = true
+				fmt.Fprintf(&b, "  typedef %s { type boolean; units \"older\"; }\n", td.Name)
+			}
+		}
+		for _, g := range x.Groupings {
+			if !seen["g:"+g.Name] {
+				seen["g:"+g.Name] = true
+				fmt.Fprintf(&b, "  grouping %s { leaf older-%s { type string; } }\n", g.Name, g.Name)
+			}
+		}
+		for _, id := range x.Identities {
+			if !seen["i:"+id.Name] {
+				seen["i:"+id.Name] = true
+				fmt.Fprintf(&b, "  identity %s;\n", id.Name)
+			}
+		}
+	}
+	for _, n := range m.Nodes {
+		if n.Kind == KContainer {
+			fmt.Fprintf(&b, "  container %s { leaf older-child { type string; } }\n", n.Name)
+			break
+		}
+	}
+	fmt.Fprintf(&b, "  container older-only {\n    choice och { leaf oa { type string; } container ob { leaf x { type string; } } }\n  }\n  augment \"/%s:older-only\" { leaf oz { type string; } choice och2 { leaf ob2 { type string; } } }\n  rpc older-op { input { leaf i { type string; } } }\n}\n", m.Prefix)
+	return &Source{Name: m.Name + "@2019-05-05.yang", Text: b.String()}
 }
 
 type Import struct {
@@ -403,6 +451,19 @@ func (p *pr) node(n *Node) {
 
 // Texts renders every module; keys are file names, in the set's order.
 func (s *Set) Texts() []Source {
+	out := s.ModuleTexts()
+	if o := s.OlderText(); o != nil {
+		if s.OlderFirst {
+			out = append([]Source{*o}, out...)
+		} else {
+			out = append(out, *o)
+		}
+	}
+	return out
+}
+
+// ModuleTexts are the texts of the modules of the set proper, in model order.
+func (s *Set) ModuleTexts() []Source {
 	var out []Source
 	for _, m := range s.Modules {
 		out = append(out, Source{Name: m.FileName(), Text: m.Text()})
